@@ -22,6 +22,24 @@ def main():
     outs = []
     for c in doc['cases']:
         f = io.StringIO()
+        if 'copy_text' in c:   # SupportGenerator._copy_header_using_line_pps on a real file (self is unused by the method)
+            import os
+            import tempfile
+            from nunavut.jinja import SupportGenerator
+            d = tempfile.mkdtemp(prefix='c15copy-')
+            try:
+                src, dst = os.path.join(d, 'res.h'), os.path.join(d, 'out.h')
+                with open(src, 'w', encoding='utf-8', newline='') as g:
+                    g.write(c['copy_text'])
+                SupportGenerator._copy_header_using_line_pps(None, src, dst, [mk(p) for p in c['pps']])
+                with open(dst, 'r', encoding='utf-8', newline='') as g:
+                    outs.append({'ok': g.read()})
+            except Exception as ex:  # noqa
+                outs.append({'err': repr(ex)})
+            finally:
+                import shutil
+                shutil.rmtree(d, ignore_errors=True)
+            continue
         try:
             CodeGenerator._generate_with_line_buffer(f, iter(c['chunks']), [mk(p) for p in c['pps']])
             outs.append({'ok': f.getvalue()})
